@@ -780,4 +780,129 @@ theorem setformat_effect {w : World} {i sp : Nat} {d : List Nat} {trx : Trx} {a 
   have hv : v = 0 ∨ v = 1 := by simpa [Gen.Trxd.knownVersions] using hk
   rcases hv with rfl | rfl <;> rfl
 
+/-! ### the clock counter under TRXC commands -/
+
+/-- effect of a TRXC command on the clock counter: untouched, or (re)started at `clck_start` when
+the generator was not running -/
+def ClkEffect (w w' : World) : Prop :=
+  w'.clkSrc = w.clkSrc ∨ (w.clkRunning = false ∧ w'.clkSrc = some Gen.World.clckStart)
+
+/-- the clock-generator part of `power_event_handler` -/
+def clkFinish (W : World) (links : List Nat) : Except Exc World :=
+  let w := { W with clkLinks := links }
+  if ¬ w.clkRunning ∧ links.length > 0 then
+    .ok { w with clkRunning := true, clkSrc := some Gen.World.clckStart }
+  else if w.clkRunning ∧ links.isEmpty then
+    .ok { w with clkRunning := false }
+  else .ok w
+
+theorem clkFinish_clk {W w' : World} {links : List Nat} (h : clkFinish W links = .ok w') :
+    ClkEffect W w' := by
+  unfold clkFinish at h
+  simp only [] at h
+  by_cases c1 : ¬ W.clkRunning = true ∧ links.length > 0
+  · rw [if_pos c1] at h; cases h
+    exact .inr ⟨by simpa using c1.1, rfl⟩
+  · rw [if_neg c1] at h
+    by_cases c2 : W.clkRunning = true ∧ links.isEmpty = true
+    · rw [if_pos c2] at h; cases h; exact .inl rfl
+    · rw [if_neg c2] at h; cases h; exact .inl rfl
+
+theorem foldl_setTrx_clk (f : Trx → Trx) : ∀ (l : List Nat) (w : World),
+    (l.foldl (fun w j => setTrx w j f) w).clkSrc = w.clkSrc ∧
+    (l.foldl (fun w j => setTrx w j f) w).clkRunning = w.clkRunning := by
+  intro l
+  induction l with
+  | nil => intro w; exact ⟨rfl, rfl⟩
+  | cons a l ih => intro w; rw [List.foldl_cons]; exact ih _
+
+theorem powerEvent_clk {w w' : World} {i : Nat} {on : Bool} (h : powerEvent w i on = .ok w') :
+    ClkEffect w w' := by
+  unfold powerEvent at h
+  split at h
+  · cases h
+  simp only [] at h
+  generalize hW : List.foldl _ w _ = W at h
+  have h1 : W.clkSrc = w.clkSrc ∧ W.clkRunning = w.clkRunning := by
+    rw [← hW]; exact foldl_setTrx_clk _ _ _
+  unfold ClkEffect
+  rw [← h1.1, ← h1.2]
+  split at h
+  · cases h; exact .inl rfl
+  · change clkFinish W (if ¬on = true ∧ W.clkLinks.contains i = true then W.clkLinks.erase i
+      else if on = true ∧ ¬W.clkLinks.contains i = true then W.clkLinks ++ [i] else W.clkLinks) = .ok w' at h
+    exact clkFinish_clk h
+
+theorem applyAction_clk {w w' : World} {i : Nat} {a : Action} {r : CmdRes}
+    (h : applyAction w i a = .ok (w', r)) : ClkEffect w w' := by
+  cases a with
+  | patch p rc =>
+    simp only [applyAction, pure, Except.pure, Except.ok.injEq, Prod.mk.injEq] at h
+    obtain ⟨rfl, -⟩ := h; exact .inl rfl
+  | reply rc ps =>
+    simp only [applyAction, pure, Except.pure, Except.ok.injEq, Prod.mk.injEq] at h
+    obtain ⟨rfl, -⟩ := h; exact .inl rfl
+  | power on =>
+    simp only [applyAction, bind, Except.bind, pure, Except.pure] at h
+    split at h
+    · cases h
+    next w2 hp =>
+    simp only [Except.ok.injEq, Prod.mk.injEq] at h
+    obtain ⟨rfl, -⟩ := h
+    exact powerEvent_clk hp
+  | measure f =>
+    simp only [applyAction, bind, Except.bind, pure, Except.pure, fakePmMeasure] at h
+    repeat' split at h
+    all_goals first | contradiction | skip
+    all_goals
+      simp only [Except.ok.injEq, Prod.mk.injEq] at h
+      obtain ⟨rfl, -⟩ := h
+      rename_i v hh
+      split at hh <;> exact .inl (SameQ.randint (v := v.1) (w' := v.2) hh).clkSrc
+
+theorem parseCmd_clk {w w' : World} {i : Nat} {req : List Str} {r : CmdRes}
+    (h : parseCmd w i req = .ok (w', r)) : ClkEffect w w' := by
+  unfold parseCmd at h
+  simp only [bind, Except.bind, pure, Except.pure] at h
+  split at h
+  · cases h
+  next pr hh =>
+  obtain ⟨patch, res⟩ := pr
+  cases patch <;> simp only [] at h
+  all_goals
+    split at h
+    · simp only [Except.ok.injEq, Prod.mk.injEq] at h
+      obtain ⟨rfl, -⟩ := h
+      exact .inl rfl
+    · split at h
+      · cases h
+      · split at h
+        · cases h
+        · have := applyAction_clk h; exact this
+
+theorem step_ctrl_clk (w : World) (i sp : Nat) (d : List Nat) : ClkEffect w (step w (.ctrl i sp d)).world := by
+  simp only [step]
+  split
+  · unfold handleRx
+    split
+    · exact .inl rfl
+    simp only []
+    split
+    · exact .inl rfl
+    split
+    · exact .inl rfl
+    split
+    · next hp => exact parseCmd_clk hp
+    · exact .inl rfl
+    · exact .inl rfl
+  · exact .inl rfl
+
+theorem step_data_clk (w : World) (i : Nat) (d : List Nat) :
+    (step w (.data i d)).world.clkSrc = w.clkSrc ∧ (step w (.data i d)).world.clkRunning = w.clkRunning := by
+  simp only [step]
+  by_cases h : ∃ msg, Accepts w i d msg
+  · obtain ⟨msg, hm⟩ := h
+    rw [recvDataMsg_accept hm]; exact ⟨rfl, rfl⟩
+  · rw [(recvDataMsg_reject h).1]; exact ⟨rfl, rfl⟩
+
 end OsmoVerif.World
